@@ -12,13 +12,15 @@ LEVEL = "exploration"
 ENGINE = "models"
 TECHNIQUE = "model-based property testing (Hypothesis): operation histories against reference models"
 RULE = ("SortedSet: Hypothesis draws an element domain (ints; tuples; lists = unhashable, totally ordered; strings; nested "
-        "SortedSets = what set<frozen<set<int>>> deserializes to, comparable but only partially ordered), an initial "
-        "content and up to 14 operations (add, remove, pop, clear, update, in, len, indexing, del by "
+        "SortedSets one and two levels deep = what set<frozen<set<int>>> / set<frozen<set<frozen<set<int>>>>> deserialize to, "
+        "comparable but only partially ordered, with same-size inner sets whose items cross -- {0,3} / {1,2} -- built by "
+        "construction), an initial content and up to 14 operations (add, remove, pop, clear, update, in, len, indexing, del by "
         "index, reversed, union/intersection/difference with 1-2 operands, symmetric_difference, | & - ^ and their "
         "reflected and in-place forms, isdisjoint/issubset/issuperset, <= < >= > == !=, copy) whose operands are other "
         "SortedSets, builtin sets (hashable domains) or lists; the model is a Python set of canonical hashable images, "
         "iteration order = sorted images.  After every step the return value / exception class and the full iteration "
-        "order are compared.  OrderedMap / OrderedMapSerializedKey: key type (int, text, tuple<int,text>, list<int>, "
+        "order are compared; the same elements re-added in two other orders must give an equal set with the same iteration.  "
+        "OrderedMap / OrderedMapSerializedKey: key type (int, text, tuple<int,text>, list<int>, "
         "set<int>, frozen map<int,int>; the last three unhashable), initial pairs (for the serialized-key variant encoded "
         "with an independent CQL encoder and read through MapType.deserialize, as a map column is) and up to 12 "
         "operations (m[k]=v, del, m[k], get, in, popitem, len, ==); the model is a list of pairs keyed by the independent "
@@ -42,9 +44,26 @@ SERIAL = os.environ.get("VERIF_TIER") == "quick"
 # element domains for SortedSet
 # ----------------------------------------------------------------------------
 
-DOMS = ("int", "tuple", "list", "str", "sset")      # dicts are unorderable: outside "any single comparable type"
+DOMS = ("int", "tuple", "list", "str", "sset", "sset", "sset2")      # dicts are unorderable: outside "any single comparable type"
 HASHABLE = ("int", "tuple", "str")
 TOTAL = ("int", "tuple", "list", "str")
+NESTED = ("sset", "sset2")
+# same-size sets (2 and 3 items) with crossing items, e.g. {0,3} / {1,2}
+_CROSSING = [[0, 3], [1, 2], [0, 5], [1, 4], [2, 3], [1, 5], [0, 2, 5], [0, 3, 4], [1, 2, 3], [0, 4, 5], [1, 2, 5], [1, 3, 4]]
+
+
+def _canon2(j):
+    """canonical JSON form of a set of sets: distinct inner sets, by size then items"""
+    seen, out = set(), []
+    for x in sorted(j, key=lambda x: (len(x), x)):
+        if tuple(x) not in seen:
+            seen.add(tuple(x))
+            out.append(list(x))
+    return out
+
+
+_CROSSING2 = [_canon2(x) for x in ([[0], [1, 2]], [[1], [0, 2]], [[0], [2, 3]], [[2], [0, 3]], [[0, 3], [1, 2]], [[0, 2], [1, 3]],
+                                   [[0, 3], [2, 3]], [[1, 2], [1, 3]], [[0], [1], [2, 3]], [[0], [2], [1, 3]], [[1], [2], [0, 3]])]
 
 
 def mk(dom, j):
@@ -55,6 +74,8 @@ def mk(dom, j):
         return list(j)
     if dom == "sset":
         return SortedSet(j)
+    if dom == "sset2":
+        return SortedSet([SortedSet(x) for x in j])
     if dom == "dict":
         return dict(j)
     return j
@@ -65,6 +86,8 @@ def img(dom, j):
         return tuple(j)
     if dom == "sset":
         return frozenset(j)
+    if dom == "sset2":
+        return frozenset(frozenset(x) for x in j)
     if dom == "dict":
         return frozenset(j.items())
     return j
@@ -75,6 +98,8 @@ def img_of_obj(dom, o):
         return tuple(o)
     if dom == "sset":
         return frozenset(o)
+    if dom == "sset2":
+        return frozenset(frozenset(x) for x in o)
     if dom == "dict":
         return frozenset(o.items())
     return o
@@ -89,13 +114,24 @@ def s_elem(dom):
     if dom == "str":
         return st.sampled_from(["", "a", "ab", "b", "B", "é", "aa"])
     if dom == "sset":
-        return st.lists(st.integers(0, 3), max_size=3, unique=True).map(sorted)
+        # nested sets are ordered by size, then item by item: the interesting elements are SAME-SIZE sets whose
+        # items cross (first item smaller, a later one larger), built here by construction
+        return st.one_of(st.sampled_from(_CROSSING), st.sampled_from(_CROSSING),
+                         st.lists(st.integers(0, 5), max_size=3, unique=True).map(sorted))
+    if dom == "sset2":
+        # two levels: sets of sets of ints; same-size outer elements whose (inner-set) items cross
+        inner = st.one_of(st.sampled_from(_CROSSING[:6] + [[0], [1], [2]]),
+                          st.lists(st.integers(0, 3), max_size=2, unique=True).map(sorted))
+        return st.one_of(st.sampled_from(_CROSSING2),
+                         st.lists(inner, max_size=3).map(_canon2))
     if dom == "dict":
         return st.dictionaries(st.sampled_from(["a", "b"]), st.integers(0, 1), max_size=2)
     raise ValueError(dom)
 
 
 def s_elems(dom, max_size=5):
+    if dom in NESTED:
+        max_size += 3
     return st.lists(s_elem(dom), max_size=max_size)
 
 
@@ -220,27 +256,39 @@ def _check_state(ctx, dom, S, M, after, extra_feat=None):
         if set(got) != M.keys():
             ctx.fail(["C33.sortedset.state"] + feats, "content %r, model %r" % (sorted(map(repr, got)), sorted(map(repr, M.keys()))))
             return False
-        if dom == "sset":
+        if dom in NESTED:
             for i in range(len(got)):
                 for k in range(i + 1, len(got)):
                     if got[k] < got[i]:
                         ctx.fail(["C33.sortedset.order"] + feats, "element %r iterated after its proper superset %r" % (
-                            sorted(got[k]), sorted(got[i])))
+                            sorted(map(repr, got[k])), sorted(map(repr, got[i]))))
                         return False
     if n != len(M.rep):
         ctx.fail(["C33.sortedset.len"] + feats, "len() = %d, model %d" % (n, len(M.rep)))
         return False
+    if after in ("init", "final") or dom in NESTED:
+        # a set is its content: the same elements added in another order give an equal set that iterates
+        # the same way (and finds every element)
+        with ctx.driver(["C33.sortedset.canonical"] + feats):
+            items = list(S)
+            for order in (items[::-1], items[1::2] + items[0::2]):
+                R = SortedSet(order)
+                rgot = [img_of_obj(dom, x) for x in R]
+                if not (rgot == got and R == S and not (R != S) and all(x in R for x in items)):
+                    ctx.fail(["C33.sortedset.canonical", "dom=%s" % dom],
+                             "the same %d elements added in another order iterate as %r, not %r (== %r)" % (len(items), rgot, got, R == S))
+                    return False
     return True
 
 
 def interpret_sortedset(case, ctx):
     _interpret_sortedset(case, ctx)
-    if case["dom"] == "sset" and ctx._failures:
+    if case["dom"] in NESTED and ctx._failures:
         # SortedSet keeps its elements with a bisection that presumes a total order; nested sets compare by
         # inclusion, so every operation can go wrong in this domain and every symptom (lost membership,
         # duplicates, order, wrong results of derived operations) has that one root cause
         first = ctx._failures[0]
-        ctx._failures[:] = [(["C33.sortedset.partial-order", "dom=sset"], "%s: %s" % ("/".join(first[0]), first[1]))]
+        ctx._failures[:] = [(["C33.sortedset.partial-order", "dom=%s" % case["dom"]], "%s: %s" % ("/".join(first[0]), first[1]))]
 
 
 def _interpret_sortedset(case, ctx):
@@ -469,6 +517,8 @@ def _interpret_sortedset(case, ctx):
             return
         if not _check_state(ctx, dom, S, M, name):
             return
+    if not _check_state(ctx, dom, S, M, "final"):
+        return
     n = len(case["ops"])
     ctx.label("sortedset", "set:dom=%s" % dom)
     if seen_ops & set(_REMOVALS):
